@@ -489,3 +489,55 @@ def build_conversation(rnd, nex=6, fault_p=0.45, cfg=None, chunking=None, faults
             deliver(b)
     meta["cache_final"] = {"session": cache.session, "serial": cache.serial, "data": list(cache.data), "ver": cache.ver}
     return s, meta
+
+
+def _script_from_lines(lines):
+    s = Script()
+    for l in lines:
+        w = l.split()
+        if not w:
+            continue
+        if w[0] == "cfg":
+            s.cfg = tuple(int(x) for x in w[1:5])
+        elif w[0] == "pre":
+            s.pre.append(l.strip())
+        elif w[0] == "open":
+            s.opens += [x != "0" for x in w[1:]]
+        elif w[0] == "send":
+            s.sends += w[1:]
+        elif w[0] == "ev":
+            if w[1] == "data":
+                s.evs.append(("data", bytes.fromhex(w[2]) if len(w) > 2 else b""))
+            elif w[1] == "stop":
+                s.evs.append(("stop",))
+            else:
+                s.evs.append((w[1], int(w[2])))
+    return s
+
+
+Script.from_lines = staticmethod(_script_from_lines)
+
+
+def shrink_script(s, failing, budget=60):
+    """Drop events / open entries / pre lines while `failing(script)` stays true."""
+    import copy
+    cur = copy.deepcopy(s)
+    runs = 0
+    for attr in ("evs", "pre", "sends"):
+        chunk = max(1, len(getattr(cur, attr)) // 2)
+        while chunk >= 1 and runs < budget:
+            i = 0
+            progressed = False
+            while i < len(getattr(cur, attr)) and runs < budget:
+                cand = copy.deepcopy(cur)
+                lst = getattr(cand, attr)
+                del lst[i:i + chunk]
+                runs += 1
+                if failing(cand):
+                    cur = cand
+                    progressed = True
+                else:
+                    i += chunk
+            if not progressed:
+                chunk //= 2
+    return cur
